@@ -15,6 +15,7 @@ import (
 
 	"github.com/prometheus/prometheus/model/labels"
 
+	"github.com/thanos-io/thanos/pkg/extpromql"
 	"github.com/thanos-io/thanos/pkg/rules/rulespb"
 	"github.com/thanos-io/thanos/pkg/store/labelpb"
 	"github.com/thanos-io/thanos/pkg/verifhook/vfkit"
@@ -53,7 +54,7 @@ var (
 	vfc45MatcherNames = []string{"severity", "team", "env", "x_1", "absent"}
 	vfc45ReplicaNames = []string{"replica", "rule_replica"}
 	vfc45Values       = []string{"a", "b", "ab", "1", "é", "a b", `q"t`, `b\s`, "a}b", "page"}
-	vfc45Templated    = []string{"{{ $labels.x }}", "p-{{ $value }}", "{{$externalURL}}", "{{ $labels.team }}-b"}
+	vfc45Templated    = []string{"{{ $labels.x }}", "p-{{ $value }}", "{{$externalURL}}", "{{ $labels.team }}-b", "{{ .Labels.instance }}", "p-{{ .Value }}", "{{ .ExternalURL }}-b", "a{{ print 1 }}b"}
 	vfc45RegexValues  = []string{"a.*", "a|b", ".+", ".*", "[ab]", "", "b?", "a b", "é.*", "pa.e"}
 	vfc45RuleNames    = []string{"up", "HighLatency", "job:up:sum", "A"}
 	vfc45Queries      = []string{"up == 0", "sum(up) by (job)", "vector(1)"}
@@ -371,6 +372,44 @@ func vfc45Check(r *vfkit.Run, c int, rng *rand.Rand, base []vfc45Group, reps []v
 	r.Sample(map[string]any{"groups": len(base), "replicas": len(reps), "selectors": selectors, "configured_replica_labels": configured, "input_rules": len(all), "expected": len(want), "returned": len(got)})
 
 	show := func(k string) string { return strings.ReplaceAll(k, "\x00", " / ") }
+	// alone runs only the anchored filter stage (filterRulesByMatchers) on one input rule with the same
+	// selectors: it tells whether the filter or the merge/dedup stage is responsible for a wrong answer.
+	alone := func(k string) (kept bool) {
+		var msets [][]*labels.Matcher
+		for _, sel := range selectors {
+			ms, err := extpromql.ParseMetricSelector(sel)
+			if err != nil {
+				return false
+			}
+			msets = append(msets, ms)
+		}
+		for gi, g := range base {
+			for ri, ru := range g.Rules {
+				for _, rp := range reps {
+					if rp.NoGroup[gi] || rp.Missing[fmt.Sprintf("%d/%d", gi, ri)] {
+						continue
+					}
+					lbls := append([][2]string(nil), ru.Labels...)
+					for _, e := range rp.Extra {
+						if !isConfigured(e[0]) {
+							lbls = append(lbls, e)
+						}
+					}
+					if g.File+"\x00"+g.Name+"\x00"+vfc45Identity(ru.Alert, ru.Name, ru.Query, ru.Dur, lbls) != k {
+						continue
+					}
+					one := []vfc45Group{{File: g.File, Name: g.Name, Rules: []vfc45Rule{ru}}}
+					out := filterRulesByMatchers(vfc45PB(rng, one, []vfc45Replica{{Extra: rp.Extra}}), msets)
+					n := 0
+					for _, g := range out {
+						n += len(g.Rules)
+					}
+					return n > 0
+				}
+			}
+		}
+		return false
+	}
 	keys := make([]string, 0, len(all)+len(got))
 	for k := range all {
 		keys = append(keys, k)
@@ -385,15 +424,20 @@ func vfc45Check(r *vfkit.Run, c int, rng *rand.Rand, base []vfc45Group, reps []v
 		in := all[k]
 		switch {
 		case want[k] && got[k] == 0:
-			if in.matched > 0 && in.matched < len(sets) {
+			if alone(k) {
+				r.Violation(c, "dedup:rule-dropped", fmt.Sprintf("rule %s (reported by %d replica(s), satisfies %d of %d selector sets) passes the filter stage alone but is missing from the merged answer", show(k), in.replicas, in.matched, len(sets)), wit)
+			} else if in.matched > 0 && in.matched < len(sets) {
 				r.Violation(c, "filter:rule-omitted:satisfies-one-matcher-set-but-not-every-set",
 					fmt.Sprintf("rule %s satisfies %d of the %d selector sets %q and is not returned", show(k), in.matched, len(sets), selectors), wit)
 			} else {
-				r.Violation(c, "rule-dropped", fmt.Sprintf("rule %s (reported by %d replica(s), satisfies %d of %d selector sets) is not returned", show(k), in.replicas, in.matched, len(sets)), wit)
+				r.Violation(c, "filter:rule-omitted", fmt.Sprintf("rule %s (reported by %d replica(s), satisfies %d of %d selector sets) is not returned", show(k), in.replicas, in.matched, len(sets)), wit)
 			}
 			return
 		case want[k] && got[k] > 1:
 			r.Violation(c, "dedup:rule-reported-more-than-once", fmt.Sprintf("rule %s reported by %d replica(s) is returned %d times", show(k), in.replicas, got[k]), wit)
+			return
+		case !want[k] && got[k] > 0 && in != nil && !alone(k):
+			r.Violation(c, "dedup:rule-returned-although-filtered-out", fmt.Sprintf("rule %s satisfies none of the selector sets %q, is removed by the filter stage alone, but is in the merged answer", show(k), selectors), wit)
 			return
 		case !want[k] && got[k] > 0 && in != nil:
 			r.Violation(c, "filter:rule-returned:satisfies-no-matcher-set", fmt.Sprintf("rule %s satisfies none of the selector sets %q and is returned", show(k), selectors), wit)
